@@ -108,3 +108,164 @@ def worker_replay(case, rp):
     for v in r['violations']:
         return dict(confirmed=True, detail=v['detail'], input=v['input'], found_by='bounded native worker dispatch')
     return dict(confirmed=False, detail='%d worker requests behave' % r['cases'])
+
+
+# ------------------------------------------------------------------------------
+# request accounting of DefaultWorker: histories of requests, completions and
+# failing process starts on the real _request_cb / _result_cb / _alloc / _dealloc
+#
+import random
+import threading
+
+
+class _FakeProc:
+    """stands for mp.Process in raptor.worker_default: start() registers the
+    request as running, or raises when the scenario says so"""
+    fail_ctor = fail_start = False
+    running = None
+    next_pid = 1000
+
+    def __init__(self, target=None, args=()):
+        if _FakeProc.fail_ctor: raise OSError('cannot create process')
+        self.task = args[0]
+        _FakeProc.next_pid += 1
+        self.pid = _FakeProc.next_pid
+
+    def start(self):
+        if _FakeProc.fail_start: raise OSError('cannot fork')
+        self.task['pid'] = self.pid           # what _dispatch does in the child
+        _FakeProc.running.append(self.task)
+
+
+def _dworker(rp, n_cores, n_gpus):
+    from radical.pilot.raptor.worker_default import DefaultWorker
+    w = object.__new__(DefaultWorker)
+    w._log, w._prof = Stub(), Stub()
+    w._uid = 'worker.0000'
+    w._n_cores, w._n_gpus = n_cores, n_gpus
+    w._rlock, w._plock = threading.Lock(), threading.Lock()
+    w._resources = {'cores': [0] * n_cores, 'gpus': [0] * n_gpus}
+    w._res_evt = Stub()
+    w._pool = dict()
+    w._task_env = dict()
+    w.answers = []
+    w._res_put = Stub()
+    w._res_put.put = lambda t: w.answers.append(t)
+    return w
+
+
+def run_history(rp, ops, n_cores=4, n_gpus=2):
+    """ops: ('req', cores, gpus, failure) | ('done', k): the k-th running request
+    returns its result.  -> list of problems"""
+    import radical.pilot.raptor.worker_default as wd
+    saved = wd.mp.Process
+    saved_sleep = wd.time.sleep
+    w = _dworker(rp, n_cores, n_gpus)
+    _FakeProc.running = []
+    probs, n_req, started, answered = [], 0, [], []
+    # a request that does not fit waits in `while not self._alloc(task)`: here the
+    # waiting is cut by finishing the oldest running request during the sleep
+    def sleep(dt):
+        if not _FakeProc.running:
+            raise RuntimeError('request waits for resources although nothing is running')
+        t = _FakeProc.running.pop(0)
+        w._result_cb([t, 'o', 'e', 0, None, [None, None]])
+    class P(_FakeProc): pass
+    wd.mp.Process = _FakeProc
+    wd.time.sleep = sleep
+    try:
+        for op in ops:
+            if op[0] == 'req':
+                n_req += 1
+                t = {'uid': 'req.%04d' % n_req, 'cores': op[1], 'gpus': op[2]}
+                _FakeProc.fail_ctor, _FakeProc.fail_start = (op[3] == 'ctor'), (op[3] == 'start')
+                n_ans = len(w.answers)
+                try:
+                    w._request_cb([t])
+                except Exception as e:
+                    probs.append('%s: _request_cb raised %r' % (t['uid'], e)); break
+                finally:
+                    _FakeProc.fail_ctor = _FakeProc.fail_start = False
+                is_run = any(r is t for r in _FakeProc.running)
+                is_ans = any(a is t for a in w.answers[n_ans:])
+                if is_run == is_ans:
+                    probs.append('%s (%s): %s' % (t['uid'], op[3] or 'starts', 'both started and answered' if is_run else 'neither started nor answered'))
+                if is_ans and not t.get('exception'):
+                    probs.append('%s: answered without a process but carries no exception' % t['uid'])
+            elif op[0] == 'done' and _FakeProc.running:
+                t = _FakeProc.running.pop(op[1] % len(_FakeProc.running))
+                try:
+                    w._result_cb([t, 'out', 'err', op[1] % 2, 'val', [None, None]])
+                except Exception as e:
+                    probs.append('%s: _result_cb raised %r' % (t['uid'], e)); break
+                if t.get('exit_code') != op[1] % 2 or t.get('stdout') != 'out':
+                    probs.append('%s: the answer does not carry what the call produced' % t['uid'])
+            for r in _FakeProc.running:
+                if not r.get('slots'):
+                    probs.append('%s was started without a grant (no slots)' % r['uid'])
+            if probs: break
+            # invariant: the cells marked busy are exactly the cells of running requests, no cell twice
+            for kind, n in (('cores', n_cores), ('gpus', n_gpus)):
+                held = [c for r in _FakeProc.running for c in r['slots'][0][kind]]
+                if len(held) != len(set(held)):
+                    probs.append('after %s: a %s cell is held by two running requests: %s' % (op, kind[:-1], sorted(held)))
+                marked = [i for i, v in enumerate(w._resources[kind]) if v]
+                if sorted(held) != marked:
+                    probs.append('after %s: %s marked busy %s, held by running requests %s' % (op, kind, marked, sorted(held)))
+            for r in _FakeProc.running:
+                if len(r['slots'][0]['cores']) != r['cores'] or len(r['slots'][0]['gpus']) != r['gpus']:
+                    probs.append('%s runs on %s, asked for %d cores %d gpus' % (r['uid'], r['slots'], r['cores'], r['gpus']))
+            if probs: break
+        uids = [a['uid'] for a in w.answers]
+        if len(uids) != len(set(uids)):
+            probs.append('a request was answered twice: %s' % uids)
+    finally:
+        wd.mp.Process = saved
+        wd.time.sleep = saved_sleep
+    return probs
+
+
+def histories(seed, n):
+    rnd = random.Random(seed)
+    for k in range(n):
+        ops = []
+        for _ in range(rnd.randint(3, 14)):
+            if rnd.random() < 0.65:
+                ops.append(('req', rnd.randint(1, 4), rnd.choice([0, 0, 1, 2]), rnd.choice([None, None, None, 'ctor', 'start'])))
+            else:
+                ops.append(('done', rnd.randint(0, 5)))
+        yield k, ops
+
+
+DIRECTED = [
+    ('start fails after the grant', [('req', 2, 1, 'start'), ('req', 4, 2, None)]),
+    ('process object cannot be created', [('req', 4, 2, 'ctor'), ('req', 4, 2, None)]),
+    ('request waits until a running one returns', [('req', 3, 0, None), ('req', 3, 0, None), ('done', 0)]),
+    ('full worker, then all return', [('req', 2, 1, None), ('req', 2, 1, None), ('done', 1), ('done', 0), ('req', 4, 2, None)]),
+]
+
+
+def run_accounting(rp, tier='quick', seed=0):
+    viol, n = [], 0
+    for name, ops in DIRECTED:
+        n += 1
+        p = run_history(rp, ops)
+        if p: viol.append(dict(id='directed:' + name.replace(' ', '-'), detail='%s: %s' % (name, '; '.join(p[:3])), input=dict(history=ops)))
+    n_hist = 400 if tier == 'quick' else 4000
+    for k, ops in histories(20260926 + seed, n_hist):
+        p = run_history(rp, ops)
+        if p:
+            viol.append(dict(id='random-%04d' % k, detail='; '.join(p[:3]), input=dict(history=ops)))
+            if len(viol) > 5: break
+    return dict(cases=n + n_hist, violations=viol,
+                bound='%d directed + %d random histories (<= 14 operations) on a worker of 4 cores and 2 GPUs: requests of 1..4 cores and 0..2 GPUs, '
+                      'process creation / start failures, completions in any order; real _request_cb / _result_cb / _alloc / _dealloc, mp.Process replaced' % (n, n_hist))
+
+
+@builder('raptor/worker_default.py:DefaultWorker._request_cb', 'raptor/worker_default.py:DefaultWorker._request_cb#one',
+         'raptor/worker_default.py:DefaultWorker._result_cb')
+def worker_accounting_replay(case, rp):
+    r = run_accounting(rp)
+    for v in r['violations']:
+        return dict(confirmed=True, detail=v['detail'], input=v['input'], found_by='bounded native worker histories')
+    return dict(confirmed=False, detail='%d worker histories keep the accounting natively' % r['cases'])
